@@ -38,14 +38,14 @@ Qed.
 
 (* ---- obs ---------------------------------------------------------------------------------- *)
 
-Lemma obs_obj t : t_obj (obs t) = t_obj t. Proof. unfold obs. destruct (t_cond t =? 0); reflexivity. Qed.
-Lemma obs_otype t : t_otype (obs t) = t_otype t. Proof. unfold obs. destruct (t_cond t =? 0); reflexivity. Qed.
-Lemma obs_rel t : t_rel (obs t) = t_rel t. Proof. unfold obs. destruct (t_cond t =? 0); reflexivity. Qed.
-Lemma obs_user t : t_user (obs t) = t_user t. Proof. unfold obs. destruct (t_cond t =? 0); reflexivity. Qed.
-Lemma obs_cond t : t_cond (obs t) = t_cond t.
-Proof. unfold obs. destruct (t_cond t =? 0) eqn:E; [apply N.eqb_eq in E; simpl; congruence | reflexivity]. Qed.
+Lemma obs_obj t : rt_obj (obs t) = rt_obj t. Proof. unfold obs. destruct (rt_cond t =? 0); reflexivity. Qed.
+Lemma obs_otype t : rt_otype (obs t) = rt_otype t. Proof. unfold obs. destruct (rt_cond t =? 0); reflexivity. Qed.
+Lemma obs_rel t : rt_rel (obs t) = rt_rel t. Proof. unfold obs. destruct (rt_cond t =? 0); reflexivity. Qed.
+Lemma obs_user t : rt_user (obs t) = rt_user t. Proof. unfold obs. destruct (rt_cond t =? 0); reflexivity. Qed.
+Lemma obs_cond t : rt_cond (obs t) = rt_cond t.
+Proof. unfold obs. destruct (rt_cond t =? 0) eqn:E; [apply N.eqb_eq in E; simpl; congruence | reflexivity]. Qed.
 Lemma obs_idem t : obs (obs t) = obs t.
-Proof. unfold obs at 1. rewrite obs_cond. destruct (t_cond t =? 0) eqn:E; [|reflexivity].
+Proof. unfold obs at 1. rewrite obs_cond. destruct (rt_cond t =? 0) eqn:E; [|reflexivity].
        unfold obs. rewrite E. reflexivity. Qed.
 Lemma obs_key t : key_of (obs t) = key_of t.
 Proof. unfold key_of. rewrite obs_obj, obs_rel, obs_user. reflexivity. Qed.
@@ -55,7 +55,7 @@ Proof. unfold key_of. rewrite obs_obj, obs_rel, obs_user. reflexivity. Qed.
 Lemma ins_obj_perm a l : Permutation (ins_obj a l) (a :: l).
 Proof.
   induction l as [| b l IH]; simpl; [apply Permutation_refl|].
-  destruct (t_obj b <? t_obj a).
+  destruct (rt_obj b <? rt_obj a).
   - eapply Permutation_trans; [apply perm_skip, IH | apply perm_swap].
   - apply Permutation_refl.
 Qed.
@@ -66,8 +66,8 @@ Proof.
   eapply Permutation_trans; [apply ins_obj_perm | apply perm_skip, IH].
 Qed.
 
-Definition le_obj (a b : tuple) : Prop := t_obj a <= t_obj b.
-Definition asc (l : list tuple) : Prop := StronglySorted le_obj l.
+Definition le_obj (a b : rtuple) : Prop := rt_obj a <= rt_obj b.
+Definition asc (l : list rtuple) : Prop := StronglySorted le_obj l.
 
 Lemma ins_obj_in a l x : In x (ins_obj a l) <-> x = a \/ In x l.
 Proof.
@@ -81,7 +81,7 @@ Proof.
   unfold asc. induction l as [| b l IH]; simpl; intro H.
   - constructor; [constructor | constructor].
   - inversion H as [| b' l' Hs Hf]; subst.
-    destruct (t_obj b <? t_obj a) eqn:E.
+    destruct (rt_obj b <? rt_obj a) eqn:E.
     + apply N.ltb_lt in E. constructor; [apply IH; exact Hs|].
       apply Forall_forall. intros x Hx. apply ins_obj_in in Hx. destruct Hx as [-> | Hx].
       * unfold le_obj. lia.
@@ -107,7 +107,7 @@ Proof. apply sort_obj_perm. Qed.
 
 (* the contextual part of any read: a filter over the ordered contextual tuples is, as a multiset,
    the observation of the same filter over the request's tuples *)
-Lemma ctx_part_perm (p q : tuple -> bool) ctx :
+Lemma ctx_part_perm (p q : rtuple -> bool) ctx :
   (forall t, p (obs t) = q t) ->
   Permutation (filter p (ctx_ordered ctx)) (map obs (filter q ctx)).
 Proof.
@@ -134,7 +134,7 @@ Theorem combined_read_eq stored ctx f :
 Proof.
   intro Hs. unfold read_shape_ok in Hs. apply andb_prop in Hs. destruct Hs as [Hs Hc].
   apply andb_prop in Hs. destruct Hs as [Ho Hu].
-  rewrite read_app. unfold combined_read.
+  rewrite read_app. unfold combined_read, combined_read_over.
   eapply Permutation_trans; [|apply Permutation_app_comm]. apply Permutation_app_tail.
   unfold filter_tuples. apply ctx_part_perm. intro t.
   unfold read_pred, rel_ok, conds_ok, ctx_users_ok. rewrite obs_rel. rewrite Hc. simpl.
@@ -147,7 +147,7 @@ Qed.
 Lemma ctx_restr_wf r t : restr_wf r = true -> ctx_restr_ok r t = restr_ok r t.
 Proof.
   destruct r as [ty rel | ty | ty]; simpl; intro H.
-  - unfold is_objrel. destruct (u_rel (t_user t) =? rel) eqn:E.
+  - unfold is_objrel. destruct (u_rel (rt_user t) =? rel) eqn:E.
     + apply N.eqb_eq in E. rewrite E. rewrite H. simpl. rewrite andb_true_r. reflexivity.
     + rewrite !andb_false_r. reflexivity.
   - apply andb_comm.
@@ -167,7 +167,7 @@ Proof.
   intro Hs. unfold usersets_shape_ok in Hs.
   apply andb_prop in Hs. destruct Hs as [Hs Hc]. apply andb_prop in Hs. destruct Hs as [Hs Hw].
   apply andb_prop in Hs. destruct Hs as [Ho Hn].
-  rewrite usersets_app. unfold combined_read_userset_tuples.
+  rewrite usersets_app. unfold combined_read_userset_tuples, combined_read_userset_tuples_over.
   eapply Permutation_trans; [|apply Permutation_app_comm]. apply Permutation_app_tail.
   unfold filter_tuples. rewrite filter_filter. apply ctx_part_perm. intro t.
   unfold usersets_pred, ctx_matches_restr, rel_ok, conds_ok, ctx_users_ok.
@@ -181,7 +181,7 @@ Proof.
   assert (Hobj : ctx_obj_ok (uf_obj f) (obs t) = obj_ok (uf_obj f) t).
   { destruct (uf_obj f); try discriminate; simpl; rewrite ?obs_obj; reflexivity. }
   rewrite Hobj.
-  destruct (is_userset_user (t_user t)), (obj_ok (uf_obj f) t), (N.eqb (uf_rel f) 0 || N.eqb (t_rel t) (uf_rel f)),
+  destruct (is_userset_user (rt_user t)), (obj_ok (uf_obj f) t), (N.eqb (uf_rel f) 0 || N.eqb (rt_rel t) (uf_rel f)),
     (existsb (fun r => restr_ok r t) (uf_restr f)); reflexivity.
 Qed.
 
@@ -199,14 +199,14 @@ Proof.
   assert (Hu' : null (sf_users f) = false) by (destruct (null (sf_users f)); [discriminate | reflexivity]).
   assert (Hr' : N.eqb (sf_rel f) 0 = false) by (destruct (N.eqb (sf_rel f) 0); [discriminate | reflexivity]).
   rewrite Hu', Hr'. simpl. rewrite !andb_true_r.
-  destruct (t_otype t =? sf_otype f), (t_rel t =? sf_rel f), (existsb (user_eqb (t_user t)) (sf_users f)); reflexivity.
+  destruct (rt_otype t =? sf_otype f), (rt_rel t =? sf_rel f), (existsb (user_eqb (rt_user t)) (sf_users f)); reflexivity.
 Qed.
 
 Theorem combined_rswu_eq stored ctx f :
   rswu_shape_ok f = true ->
   Permutation (combined_rswu stored ctx f false) (rswu (stored ++ ctx) f).
 Proof.
-  intro Hs. rewrite rswu_app. unfold combined_rswu.
+  intro Hs. rewrite rswu_app. unfold combined_rswu, combined_rswu_over.
   eapply Permutation_trans; [|apply Permutation_app_comm]. apply Permutation_app_tail.
   apply ctx_rswu_part_perm. exact Hs.
 Qed.
@@ -219,7 +219,7 @@ Proof.
   - destruct l2; simpl; apply Permutation_refl.
   - induction l2 as [| b l2 IH2].
     + simpl. rewrite app_nil_r. apply Permutation_refl.
-    + simpl. destruct (t_obj b <? t_obj a).
+    + simpl. destruct (rt_obj b <? rt_obj a).
       * eapply Permutation_trans; [apply perm_skip; exact IH2|].
         change (Permutation (b :: (a :: l1) ++ l2) ((a :: l1) ++ b :: l2)). apply Permutation_middle.
       * apply perm_skip. apply IH1.
@@ -232,13 +232,13 @@ Proof.
   - apply (Permutation_in _ (Permutation_sym (merge_obj_perm l1 l2))). apply in_or_app. exact H.
 Qed.
 
-Lemma asc_inv a l : asc (a :: l) -> asc l /\ forall x, In x l -> t_obj a <= t_obj x.
+Lemma asc_inv a l : asc (a :: l) -> asc l /\ forall x, In x l -> rt_obj a <= rt_obj x.
 Proof.
   unfold asc. intro H. inversion H as [| a' l' Hs Hf]; subst. split; [exact Hs|].
   rewrite Forall_forall in Hf. exact Hf.
 Qed.
 
-Lemma asc_cons a l : asc l -> (forall x, In x l -> t_obj a <= t_obj x) -> asc (a :: l).
+Lemma asc_cons a l : asc l -> (forall x, In x l -> rt_obj a <= rt_obj x) -> asc (a :: l).
 Proof. unfold asc. intros Hs Hf. constructor; [exact Hs | apply Forall_forall; exact Hf]. Qed.
 
 Lemma merge_obj_asc l1 : forall l2, asc l1 -> asc l2 -> asc (merge_obj l1 l2).
@@ -247,7 +247,7 @@ Proof.
   - destruct l2; simpl; exact H2.
   - induction l2 as [| b l2 IH2].
     + simpl. exact H1.
-    + simpl. destruct (t_obj b <? t_obj a) eqn:E.
+    + simpl. destruct (rt_obj b <? rt_obj a) eqn:E.
       * apply N.ltb_lt in E. destruct (asc_inv _ _ H2) as [H2' Hb]. destruct (asc_inv _ _ H1) as [H1' Ha].
         apply asc_cons; [apply IH2; exact H2'|].
         intros x Hx. change (In x (merge_obj (a :: l1) l2)) in Hx. apply merge_obj_in in Hx.
@@ -259,13 +259,21 @@ Proof.
 Qed.
 
 (* stability: among the tuples of one object, those of the first list come first *)
-Lemma cands_nil_lt l o : (forall x, In x l -> o < t_obj x) -> cands l o = [].
+Lemma cands_nil_lt l o : (forall x, In x l -> o < rt_obj x) -> cands l o = [].
 Proof.
   induction l as [| a l IH]; simpl; intro H; [reflexivity|].
-  destruct (t_obj a =? o) eqn:E.
+  destruct (rt_obj a =? o) eqn:E.
   - apply N.eqb_eq in E. specialize (H a (or_introl eq_refl)). lia.
   - apply IH. intros x Hx. apply H. right. exact Hx.
 Qed.
+
+Lemma cands_cons a l o : cands (a :: l) o = if rt_obj a =? o then a :: cands l o else cands l o.
+Proof. reflexivity. Qed.
+
+Lemma merge_obj_cons a l1 b l2 :
+  merge_obj (a :: l1) (b :: l2) =
+  if rt_obj b <? rt_obj a then b :: merge_obj (a :: l1) l2 else a :: merge_obj l1 (b :: l2).
+Proof. reflexivity. Qed.
 
 Lemma merge_obj_cands l1 : forall l2 o, asc l1 ->
   cands (merge_obj l1 l2) o = cands l1 o ++ cands l2 o.
@@ -274,51 +282,45 @@ Proof.
   - destruct l2; reflexivity.
   - induction l2 as [| b l2 IH2].
     + simpl. rewrite app_nil_r. reflexivity.
-    + simpl merge_obj. destruct (t_obj b <? t_obj a) eqn:E.
-      * apply N.ltb_lt in E. unfold cands at 1. simpl filter. fold (cands (merge_obj (a :: l1) l2) o).
-        change ((fix aux (l2 : list tuple) : list tuple :=
-                   match l2 with
-                   | [] => a :: l1
-                   | b :: l2' => if t_obj b <? t_obj a then b :: aux l2' else a :: merge_obj l1 l2
-                   end) l2) with (merge_obj (a :: l1) l2).
-        fold (cands (merge_obj (a :: l1) l2) o). rewrite IH2.
-        unfold cands at 4. simpl filter. fold (cands l2 o).
-        destruct (t_obj b =? o) eqn:Eo; [|reflexivity].
+    + rewrite merge_obj_cons. destruct (rt_obj b <? rt_obj a) eqn:E.
+      * apply N.ltb_lt in E. rewrite cands_cons, IH2. rewrite (cands_cons b l2 o).
+        destruct (rt_obj b =? o) eqn:Eo; [|reflexivity].
         apply N.eqb_eq in Eo. destruct (asc_inv _ _ H1) as [_ Ha].
         assert (Hn : cands (a :: l1) o = []).
         { apply cands_nil_lt. intros x [<- | Hx]; [lia | specialize (Ha x Hx); lia]. }
         rewrite Hn. reflexivity.
-      * unfold cands at 1 2. simpl filter. fold (cands (merge_obj l1 (b :: l2)) o). fold (cands l1 o).
-        destruct (asc_inv _ _ H1) as [H1' _]. rewrite IH1 by exact H1'.
-        destruct (t_obj a =? o); reflexivity.
+      * destruct (asc_inv _ _ H1) as [H1' _]. rewrite cands_cons, (IH1 _ _ H1'), (cands_cons a l1 o).
+        destruct (rt_obj a =? o); reflexivity.
 Qed.
 
-Definition first_of (l : list tuple) : list tuple := match l with [] => [] | x :: _ => [x] end.
+Definition first_of (l : list rtuple) : list rtuple := match l with [] => [] | x :: _ => [x] end.
 Definition last_is (last : option N) (o : N) : bool := match last with Some x => N.eqb x o | None => false end.
-Definition last_le (last : option N) (l : list tuple) : Prop :=
-  match last with Some o => forall x, In x l -> o <= t_obj x | None => True end.
+Definition last_le (last : option N) (l : list rtuple) : Prop :=
+  match last with Some o => forall x, In x l -> o <= rt_obj x | None => True end.
+
+Lemma dedup_from_cons last a l :
+  dedup_from last (a :: l) = if last_is last (rt_obj a) then dedup_from last l else a :: dedup_from (Some (rt_obj a)) l.
+Proof. reflexivity. Qed.
 
 Lemma dedup_from_cands l : forall last o, asc l -> last_le last l ->
   cands (dedup_from last l) o = if last_is last o then [] else first_of (cands l o).
 Proof.
   induction l as [| a l IH]; intros last o Ha Hl.
   - simpl. destruct (last_is last o); reflexivity.
-  - destruct (asc_inv _ _ Ha) as [Ha' Hge]. simpl dedup_from. fold (last_is last (t_obj a)).
-    destruct (last_is last (t_obj a)) eqn:El.
+  - destruct (asc_inv _ _ Ha) as [Ha' Hge]. rewrite dedup_from_cons.
+    destruct (last_is last (rt_obj a)) eqn:El.
     + rewrite IH; [| exact Ha' | destruct last; simpl in *; [intros x Hx; apply Hl; right; exact Hx | exact I]].
       destruct (last_is last o) eqn:Eo; [reflexivity|].
-      unfold cands at 2. simpl filter. fold (cands l o).
-      destruct (t_obj a =? o) eqn:E; [|reflexivity].
+      rewrite (cands_cons a l o).
+      destruct (rt_obj a =? o) eqn:E; [|reflexivity].
       apply N.eqb_eq in E. rewrite E in El. congruence.
-    + unfold cands at 1. simpl filter. fold (cands (dedup_from (Some (t_obj a)) l) o).
-      rewrite IH; [| exact Ha' | simpl; exact Hge].
-      unfold cands at 2. simpl filter. fold (cands l o). simpl last_is.
-      destruct (t_obj a =? o) eqn:E.
+    + rewrite cands_cons. rewrite IH; [| exact Ha' | simpl; exact Hge].
+      rewrite (cands_cons a l o). simpl last_is.
+      destruct (rt_obj a =? o) eqn:E.
       * apply N.eqb_eq in E. rewrite <- E, El. reflexivity.
       * destruct (last_is last o) eqn:Eo; [|reflexivity].
-        (* last = Some o, o <> obj a: then o < obj a <= everything in l *)
         destruct last as [o0|]; [|discriminate]. simpl in Eo. apply N.eqb_eq in Eo. subst o0.
-        assert (Hlt : o < t_obj a).
+        assert (Hlt : o < rt_obj a).
         { simpl in Hl. specialize (Hl a (or_introl eq_refl)). apply N.eqb_neq in E. lia. }
         rewrite cands_nil_lt; [reflexivity|]. intros x Hx. specialize (Hge x Hx). lia.
 Qed.
@@ -326,21 +328,21 @@ Qed.
 Lemma dedup_from_incl l : forall last x, In x (dedup_from last l) -> In x l.
 Proof.
   induction l as [| a l IH]; intros last x H; simpl in *; [exact H|].
-  destruct (match last with Some o => o =? t_obj a | None => false end).
+  destruct (match last with Some o => o =? rt_obj a | None => false end).
   - right. eapply IH. exact H.
   - destruct H as [-> | H]; [left; reflexivity | right; eapply IH; exact H].
 Qed.
 
 Lemma dedup_from_covers l : forall last x, In x l ->
-  In (t_obj x) (map t_obj (dedup_from last l)) \/ last = Some (t_obj x).
+  In (rt_obj x) (map rt_obj (dedup_from last l)) \/ last = Some (rt_obj x).
 Proof.
   induction l as [| a l IH]; intros last x H; [destruct H|].
-  simpl. destruct (match last with Some o => o =? t_obj a | None => false end) eqn:El.
+  simpl. destruct (match last with Some o => o =? rt_obj a | None => false end) eqn:El.
   - destruct H as [<- | H].
     + right. destruct last as [o|]; [|discriminate]. apply N.eqb_eq in El. congruence.
     + apply IH. exact H.
   - destruct H as [<- | H]; [left; left; reflexivity|].
-    destruct (IH (Some (t_obj a)) x H) as [Hin | He].
+    destruct (IH (Some (rt_obj a)) x H) as [Hin | He].
     + left. right. exact Hin.
     + left. left. congruence.
 Qed.
@@ -353,41 +355,41 @@ Proof.
 Qed.
 
 Lemma dedup_from_strict l : forall last, asc l -> last_le last l ->
-  strictly_asc (map t_obj (dedup_from last l)) = true /\
-  (forall o, last = Some o -> forall x, In x (dedup_from last l) -> o < t_obj x).
+  strictly_asc (map rt_obj (dedup_from last l)) = true /\
+  (forall o, last = Some o -> forall x, In x (dedup_from last l) -> o < rt_obj x).
 Proof.
   induction l as [| a l IH]; intros last Ha Hl.
   - simpl. split; [reflexivity | intros o _ x []].
   - destruct (asc_inv _ _ Ha) as [Ha' Hge]. simpl dedup_from.
-    destruct (match last with Some o => o =? t_obj a | None => false end) eqn:El.
+    destruct (match last with Some o => o =? rt_obj a | None => false end) eqn:El.
     + assert (Hl' : last_le last l).
       { destruct last; simpl in *; [intros x Hx; apply Hl; right; exact Hx | exact I]. }
       apply IH; assumption.
-    + destruct (IH (Some (t_obj a)) Ha' Hge) as [Hs Hgt]. split.
-      * change (strictly_asc (t_obj a :: map t_obj (dedup_from (Some (t_obj a)) l)) = true).
+    + destruct (IH (Some (rt_obj a)) Ha' Hge) as [Hs Hgt]. split.
+      * change (strictly_asc (rt_obj a :: map rt_obj (dedup_from (Some (rt_obj a)) l)) = true).
         apply strictly_asc_cons. split; [|exact Hs].
-        destruct (dedup_from (Some (t_obj a)) l) as [| b r] eqn:Ed; simpl; [exact I|].
-        apply (Hgt (t_obj a) eq_refl b). left. reflexivity.
+        destruct (dedup_from (Some (rt_obj a)) l) as [| b r] eqn:Ed; simpl; [exact I|].
+        apply (Hgt (rt_obj a) eq_refl b). left. reflexivity.
       * intros o -> x [<- | Hx].
         -- simpl in Hl. specialize (Hl a (or_introl eq_refl)). apply N.eqb_neq in El. lia.
-        -- specialize (Hgt (t_obj a) eq_refl x Hx). simpl in Hl. specialize (Hl a (or_introl eq_refl)). lia.
+        -- specialize (Hgt (rt_obj a) eq_refl x Hx). simpl in Hl. specialize (Hl a (or_introl eq_refl)). lia.
 Qed.
 
 Lemma objs_unique_notin a l : objs_unique (a :: l) = true ->
-  objs_unique l = true /\ forall x, In x l -> t_obj x <> t_obj a.
+  objs_unique l = true /\ forall x, In x l -> rt_obj x <> rt_obj a.
 Proof.
   simpl. rewrite andb_true_iff, negb_true_iff. intros [Hn Hu]. split; [exact Hu|].
-  intros x Hx E. assert (Ht : existsb (fun t' => t_obj t' =? t_obj a) l = true).
+  intros x Hx E. assert (Ht : existsb (fun t' => rt_obj t' =? rt_obj a) l = true).
   { apply existsb_exists. exists x. split; [exact Hx | apply N.eqb_eq; exact E]. }
   congruence.
 Qed.
 
 Lemma dedup_from_id l : forall last, objs_unique l = true ->
-  (forall o, last = Some o -> forall x, In x l -> t_obj x <> o) -> dedup_from last l = l.
+  (forall o, last = Some o -> forall x, In x l -> rt_obj x <> o) -> dedup_from last l = l.
 Proof.
   induction l as [| a l IH]; intros last Hu Hl; [reflexivity|].
   destruct (objs_unique_notin _ _ Hu) as [Hu' Hn]. simpl.
-  assert (El : match last with Some o => o =? t_obj a | None => false end = false).
+  assert (El : match last with Some o => o =? rt_obj a | None => false end = false).
   { destruct last as [o|]; [|reflexivity]. apply N.eqb_neq. intro E.
     apply (Hl o eq_refl a (or_introl eq_refl)). congruence. }
   rewrite El. f_equal. apply IH; [exact Hu'|]. intros o E x Hx. inversion E; subst. apply Hn. exact Hx.
@@ -398,23 +400,22 @@ Proof.
   intro H. induction H as [| x l1 l2 H IH | x y l1 | l1 l2 l3 H1 IH1 H2 IH2]; intro Hu.
   - reflexivity.
   - destruct (objs_unique_notin _ _ Hu) as [Hu' Hn]. simpl. rewrite IH by exact Hu'. rewrite andb_true_r.
-    apply negb_true_iff. destruct (existsb (fun t' => t_obj t' =? t_obj x) l2) eqn:E; [|reflexivity].
+    apply negb_true_iff. destruct (existsb (fun t' => rt_obj t' =? rt_obj x) l2) eqn:E; [|reflexivity].
     apply existsb_exists in E. destruct E as [z [Hz Ez]]. apply N.eqb_eq in Ez.
     exfalso. apply (Hn z); [apply (Permutation_in _ (Permutation_sym H)); exact Hz | exact Ez].
   - destruct (objs_unique_notin _ _ Hu) as [Hu' Hn]. destruct (objs_unique_notin _ _ Hu') as [Hu'' Hn'].
     simpl. rewrite Hu'', andb_true_r.
-    assert (E1 : (t_obj y =? t_obj x) = false).
+    assert (E1 : (rt_obj y =? rt_obj x) = false).
     { apply N.eqb_neq. intro E. apply (Hn x); [left; reflexivity | congruence]. }
-    assert (E2 : existsb (fun t' => t_obj t' =? t_obj x) l1 = false).
-    { destruct (existsb (fun t' => t_obj t' =? t_obj x) l1) eqn:E; [|reflexivity].
+    assert (E2 : existsb (fun t' => rt_obj t' =? rt_obj x) l1 = false).
+    { destruct (existsb (fun t' => rt_obj t' =? rt_obj x) l1) eqn:E; [|reflexivity].
       apply existsb_exists in E. destruct E as [z [Hz Ez]]. apply N.eqb_eq in Ez.
       exfalso. apply (Hn' z Hz). exact Ez. }
-    assert (E3 : existsb (fun t' => t_obj t' =? t_obj y) l1 = false).
-    { destruct (existsb (fun t' => t_obj t' =? t_obj y) l1) eqn:E; [|reflexivity].
+    assert (E3 : existsb (fun t' => rt_obj t' =? rt_obj y) l1 = false).
+    { destruct (existsb (fun t' => rt_obj t' =? rt_obj y) l1) eqn:E; [|reflexivity].
       apply existsb_exists in E. destruct E as [z [Hz Ez]]. apply N.eqb_eq in Ez.
       exfalso. apply (Hn z); [right; exact Hz | exact Ez]. }
-    assert (E4 : (t_obj x =? t_obj y) = false) by (rewrite N.eqb_sym; exact E1).
-    rewrite E4, E2, E3. reflexivity.
+    rewrite E1, E2, E3. reflexivity.
   - auto.
 Qed.
 
@@ -422,7 +423,7 @@ Qed.
 Theorem combined_rswu_sorted_ok stored ctx f :
   sorted_result_ok stored ctx f (combined_rswu stored ctx f true) = true.
 Proof.
-  unfold sorted_result_ok, combined_rswu.
+  unfold sorted_result_ok, sorted_result_ok_over, combined_rswu, combined_rswu_over.
   set (c := ctx_rswu_part ctx f). set (s := rswu stored f).
   assert (Hc : asc c).
   { unfold c, ctx_rswu_part, filter_tuples. apply filter_asc, filter_asc. unfold ctx_ordered. apply sort_obj_asc. }
@@ -435,16 +436,13 @@ Proof.
   rewrite !andb_true_iff. split; [split|].
   - apply (dedup_from_strict _ None Hm I).
   - apply forallb_forall. intros t Ht.
-    assert (Hin : In t (cands out (t_obj t))).
+    assert (Hin : In t (cands out (rt_obj t))).
     { unfold cands. apply filter_In. split; [exact Ht | apply N.eqb_refl]. }
     rewrite Hcands in Hin.
-    destruct (cands c (t_obj t)) as [| x cc] eqn:Ec.
-    + simpl in Hin. destruct (cands (rswu_sorted stored f) (t_obj t)) as [| y r] eqn:Es; [destruct Hin|].
+    destruct (cands c (rt_obj t)) as [| x cc] eqn:Ec.
+    + simpl in Hin. destruct (cands (rswu_sorted stored f) (rt_obj t)) as [| y r] eqn:Es; [destruct Hin|].
       simpl in Hin. destruct Hin as [<- | []].
-      assert (Hy : In y (cands (rswu_sorted stored f) (t_obj y))).
-      { assert (Hy' : In y (cands (rswu_sorted stored f) (t_obj t))) by (rewrite Es; left; reflexivity).
-        unfold cands in Hy'. apply filter_In in Hy'. destruct Hy' as [Hy1 Hy2].
-        unfold cands. apply filter_In. split; [exact Hy1 | apply N.eqb_refl]. }
+      assert (Hy : In y (cands (rswu_sorted stored f) (rt_obj y))) by (rewrite Es; left; reflexivity).
       unfold cands in Hy. apply filter_In in Hy. destruct Hy as [Hy _].
       unfold rswu_sorted in Hy. apply (Permutation_in _ (sort_obj_perm _)) in Hy.
       unfold tmem. apply existsb_exists. exists y. split.
@@ -453,20 +451,20 @@ Proof.
     + simpl in Hin. destruct Hin as [<- | []].
       unfold tmem. apply existsb_exists. exists x. split; [left; reflexivity|].
       unfold tuple_eqb, user_eqb. rewrite !N.eqb_refl. reflexivity.
-  - apply forallb_forall. intros t Ht. unfold nmem. apply existsb_exists. exists (t_obj t). split; [|apply N.eqb_refl].
+  - apply forallb_forall. intros t Ht. unfold nmem. apply existsb_exists. exists (rt_obj t). split; [|apply N.eqb_refl].
     assert (Hm' : In t (merge_obj c (rswu_sorted stored f))).
     { apply merge_obj_in. apply in_app_or in Ht. destruct Ht as [Ht | Ht]; [left; exact Ht | right].
       unfold rswu_sorted. apply (Permutation_in _ (Permutation_sym (sort_obj_perm _))). exact Ht. }
     destruct (dedup_from_covers _ None t Hm') as [H | H]; [exact H | discriminate].
 Qed.
 
-(* with one tuple per object the sorted combined read is the sorted read of the union *)
+(* with one rtuple per object the sorted combined read is the sorted read of the union *)
 Theorem combined_rswu_sorted_eq_partial stored ctx f :
   rswu_shape_ok f = true ->
   objs_unique (rswu (stored ++ ctx) f) = true ->
   Permutation (combined_rswu stored ctx f true) (rswu (stored ++ ctx) f).
 Proof.
-  intros Hs Hu. unfold combined_rswu.
+  intros Hs Hu. unfold combined_rswu, combined_rswu_over.
   assert (Hp : Permutation (merge_obj (ctx_rswu_part ctx f) (rswu_sorted stored f)) (rswu (stored ++ ctx) f)).
   { eapply Permutation_trans; [apply merge_obj_perm|]. rewrite rswu_app.
     eapply Permutation_trans; [apply Permutation_app_comm|]. apply Permutation_app.
@@ -480,9 +478,9 @@ Qed.
 Theorem combined_rswu_sorted_objects stored ctx f :
   rswu_shape_ok f = true ->
   let out := combined_rswu stored ctx f true in
-  strictly_asc (map t_obj out) = true /\
+  strictly_asc (map rt_obj out) = true /\
   (forall t, In t out -> In t (rswu (stored ++ ctx) f)) /\
-  (forall t, In t (rswu (stored ++ ctx) f) -> In (t_obj t) (map t_obj out)).
+  (forall t, In t (rswu (stored ++ ctx) f) -> In (rt_obj t) (map rt_obj out)).
 Proof.
   intros Hs out.
   assert (Hp : Permutation (merge_obj (ctx_rswu_part ctx f) (rswu_sorted stored f)) (rswu (stored ++ ctx) f)).
@@ -537,7 +535,7 @@ Proof.
   - apply andb_prop in H. destruct H as [Hn Hu]. apply negb_true_iff in Hn.
     destruct (IH Hu) as [H1 [H2 H3]]. rewrite existsb_app in Hn. apply orb_false_iff in Hn. destruct Hn as [Hn1 Hn2].
     split; [rewrite Hn1, H1; reflexivity|]. split; [exact H2|].
-    intros a b [<- | Ha] Hb; [|apply H3; assumption].
+    intros a b [-> | Ha] Hb; [|apply H3; assumption].
     destruct (key_eqb (key_of a) (key_of b)) eqn:E; [|reflexivity].
     assert (Ht : existsb (fun t' => key_eqb (key_of t') (key_of a)) l2 = true).
     { apply existsb_exists. exists b. split; [exact Hb | rewrite key_eqb_sym; exact E]. }
@@ -558,13 +556,13 @@ Proof. induction l1 as [| a l1 IH]; simpl; [reflexivity|]. destruct (p a); [refl
 
 (* the contextual candidates of a ReadUserTuple, when a relation is named: the tuples with the key *)
 Lemma rut_ctx_filter ctx k : N.eqb (k_rel k) 0 = false ->
-  filter (fun t => user_eqb (t_user t) (k_user k))
+  filter (fun t => user_eqb (rt_user t) (k_user k))
          (filter_tuples (ctx_ordered ctx) (OFull (k_obj k)) (k_rel k) [k_user k]) =
   filter (fun t => key_eqb (key_of t) k) (ctx_ordered ctx).
 Proof.
   intro Hr. unfold filter_tuples. rewrite filter_filter. apply filter_ext_in'. intros t _.
   unfold key_eqb, key_of, rel_ok, ctx_users_ok, ctx_obj_ok. simpl. rewrite Hr. simpl.
-  rewrite orb_false_r. destruct (t_obj t =? k_obj k), (t_rel t =? k_rel k), (user_eqb (t_user t) (k_user k)); reflexivity.
+  rewrite orb_false_r. destruct (rt_obj t =? k_obj k), (rt_rel t =? k_rel k), (user_eqb (rt_user t) (k_user k)); reflexivity.
 Qed.
 
 Theorem combined_rut_eq stored ctx k cs :
@@ -575,12 +573,12 @@ Proof.
   intros Hu Hs. unfold rut_shape_ok in Hs. apply andb_prop in Hs. destruct Hs as [Hr Hc].
   apply negb_true_iff in Hr. apply null_true in Hc. subst cs.
   destruct (keys_unique_app _ _ Hu) as [Hu1 [Hu2 Hd]].
-  unfold combined_read_user_tuple. rewrite rut_ctx_filter by exact Hr.
+  unfold combined_read_user_tuple, combined_read_user_tuple_over. rewrite rut_ctx_filter by exact Hr.
   unfold read_user_tuple. rewrite find_app.
   assert (Hpred : forall t, rut_pred k [] t = key_eqb (key_of t) k).
   { intro t. unfold rut_pred, conds_ok. simpl. apply andb_true_r. }
   destruct (filter (fun t => key_eqb (key_of t) k) (ctx_ordered ctx)) as [| t r] eqn:Ef.
-  - (* no contextual tuple has the key *)
+  - (* no contextual rtuple has the key *)
     assert (Hn : find (rut_pred k []) ctx = None).
     { apply find_none_iff. intros x Hx. rewrite Hpred.
       destruct (key_eqb (key_of x) k) eqn:E; [|reflexivity].
@@ -589,7 +587,7 @@ Proof.
         apply (Permutation_in _ (Permutation_sym (ctx_ordered_perm ctx))). apply in_map. exact Hx. }
       rewrite Ef in Hin. destruct Hin. }
     rewrite Hn. destruct (find (rut_pred k []) stored); reflexivity.
-  - (* t is the observation of a contextual tuple with the key: it is the only tuple with the key *)
+  - (* t is the observation of a contextual rtuple with the key: it is the only rtuple with the key *)
     assert (Hin : In t (filter (fun t => key_eqb (key_of t) k) (ctx_ordered ctx))) by (rewrite Ef; left; reflexivity).
     apply filter_In in Hin. destruct Hin as [Hin Hk].
     apply (Permutation_in _ (ctx_ordered_perm ctx)) in Hin. apply in_map_iff in Hin. destruct Hin as [c [<- Hc]].
@@ -597,26 +595,27 @@ Proof.
     assert (Hs : find (rut_pred k []) stored = None).
     { apply find_none_iff. intros x Hx. rewrite Hpred.
       destruct (key_eqb (key_of x) k) eqn:E; [|reflexivity].
-      rewrite (key_eqb_sym (key_of c)) in Hk.
-      rewrite (Hd x c Hx Hc) in *; [discriminate|]. eapply key_eqb_trans; eassumption. }
+      assert (Hxc : key_eqb (key_of x) (key_of c) = true).
+      { eapply key_eqb_trans; [exact E|]. rewrite key_eqb_sym. exact Hk. }
+      rewrite (Hd x c Hx Hc) in Hxc. discriminate. }
     rewrite Hs.
     destruct (find (rut_pred k []) ctx) as [c'|] eqn:Efc.
     + apply find_some in Efc. destruct Efc as [Hc' Hk']. rewrite Hpred in Hk'.
       assert (c' = c).
-      { apply (keys_unique_in _ Hu2); try assumption. rewrite (key_eqb_sym (key_of c)) in Hk.
-        eapply key_eqb_trans; eassumption. }
+      { apply (keys_unique_in _ Hu2); try assumption.
+        eapply key_eqb_trans; [exact Hk'|]. rewrite key_eqb_sym. exact Hk. }
       subst c'. reflexivity.
     + exfalso. rewrite find_none_iff in Efc. specialize (Efc c Hc). rewrite Hpred in Efc. congruence.
 Qed.
 
-(* a contextual tuple with the requested key always wins: whatever is stored, whatever Conditions *)
+(* a contextual rtuple with the requested key always wins: whatever is stored, whatever Conditions *)
 Theorem combined_user_tuple_ctx_wins stored ctx k cs :
   N.eqb (k_rel k) 0 = false ->
   (exists c, In c ctx /\ key_eqb (key_of c) k = true) ->
   exists c', In c' ctx /\ key_eqb (key_of c') k = true /\
              combined_read_user_tuple stored ctx k cs = Some (obs c').
 Proof.
-  intros Hr [c [Hc Hk]]. unfold combined_read_user_tuple. rewrite rut_ctx_filter by exact Hr.
+  intros Hr [c [Hc Hk]]. unfold combined_read_user_tuple, combined_read_user_tuple_over. rewrite rut_ctx_filter by exact Hr.
   destruct (filter (fun t => key_eqb (key_of t) k) (ctx_ordered ctx)) as [| t r] eqn:Ef.
   - exfalso. assert (Hin : In (obs c) (filter (fun t => key_eqb (key_of t) k) (ctx_ordered ctx))).
     { apply filter_In. split; [|rewrite obs_key; exact Hk].
@@ -673,7 +672,7 @@ Qed.
 
 Theorem ctx_never_persists s h :
   fst (run_ops s h) = s /\
-  snd (run_ops s h) = map (fun co : list tuple * op => snd (combined_op s (fst co) (snd co))) h.
+  snd (run_ops s h) = map (fun co : list rtuple * op => snd (combined_op s (fst co) (snd co))) h.
 Proof.
   induction h as [| [ctx o] h IH]; simpl; [split; reflexivity|].
   destruct (run_ops s h) as [s2 rs] eqn:E. simpl in IH. destruct IH as [IH1 IH2]. subst s2 rs.
@@ -684,7 +683,7 @@ Lemma merge_obj_nil_l l : merge_obj [] l = l.
 Proof. destruct l; reflexivity. Qed.
 
 (* a request without contextual tuples reads the plain store (after any history, by ctx_never_persists);
-   the sorted ReadStartingWithUser additionally keeps one tuple per object *)
+   the sorted ReadStartingWithUser additionally keeps one rtuple per object *)
 Theorem combined_nil_is_plain s o :
   snd (combined_op s [] o) =
   match o with
@@ -693,7 +692,7 @@ Theorem combined_nil_is_plain s o :
   end.
 Proof.
   destruct o as [f | f | k cs | f | f sorted]; simpl; try reflexivity.
-  destruct sorted; unfold combined_rswu, ctx_rswu_part, filter_tuples, ctx_ordered; simpl; [|reflexivity].
+  destruct sorted; unfold combined_rswu, combined_rswu_over, ctx_rswu_part, filter_tuples, ctx_ordered; simpl; [|reflexivity].
   rewrite merge_obj_nil_l. reflexivity.
 Qed.
 
@@ -703,18 +702,18 @@ Definition ua : user := mkUser 1 1 false 0.        (* user:a *)
 Definition ub : user := mkUser 2 1 false 0.        (* user:b *)
 Definition uw : user := mkUser 3 1 true 0.         (* user:* *)
 Definition ug : user := mkUser 4 2 false 7.        (* group:1#member *)
-Definition tA : tuple := mkTuple 10 5 3 ua 0 0.    (* doc:1#viewer@user:a *)
-Definition tB : tuple := mkTuple 10 5 3 ub 9 1.    (* doc:1#viewer@user:b with c (ctx 1) *)
-Definition tW : tuple := mkTuple 10 5 3 uw 0 0.    (* doc:1#viewer@user:* *)
-Definition tAc : tuple := mkTuple 10 5 3 ua 9 2.   (* doc:1#viewer@user:a with c (ctx 2) *)
-Definition tG : tuple := mkTuple 10 5 3 ug 0 0.    (* doc:1#viewer@group:1#member *)
+Definition tA : rtuple := mkRT 10 5 3 ua 0 0.    (* doc:1#viewer@user:a *)
+Definition tB : rtuple := mkRT 10 5 3 ub 9 1.    (* doc:1#viewer@user:b with c (ctx 1) *)
+Definition tW : rtuple := mkRT 10 5 3 uw 0 0.    (* doc:1#viewer@user:* *)
+Definition tAc : rtuple := mkRT 10 5 3 ua 9 2.   (* doc:1#viewer@user:a with c (ctx 2) *)
+Definition tG : rtuple := mkRT 10 5 3 ug 0 0.    (* doc:1#viewer@group:1#member *)
 
-Definition multiset_eq (a b : list tuple) : Prop := Permutation a b.
+Definition multiset_eq (a b : list rtuple) : Prop := Permutation a b.
 
 Lemma perm_length_neq {A} (a b : list A) : length a <> length b -> ~ Permutation a b.
 Proof. intros H P. apply H. apply Permutation_length. exact P. Qed.
 
-(* Read with a user filter: a contextual tuple of another user is returned *)
+(* Read with a user filter: a contextual rtuple of another user is returned *)
 Theorem combined_read_refuted_user_filter :
   exists stored ctx f, rf_conds f = [] /\ ofilter_exact (rf_obj f) = true /\
     ~ Permutation (combined_read stored ctx f) (read (stored ++ ctx) f).
@@ -723,7 +722,7 @@ Proof.
   apply perm_length_neq. vm_compute. discriminate.
 Qed.
 
-(* Read with Conditions: a contextual tuple with another condition is returned *)
+(* Read with Conditions: a contextual rtuple with another condition is returned *)
 Theorem combined_read_refuted_conditions :
   exists stored ctx f, rf_usr f = UAny /\ ofilter_exact (rf_obj f) = true /\
     ~ Permutation (combined_read stored ctx f) (read (stored ++ ctx) f).
@@ -750,7 +749,7 @@ Proof.
   apply perm_length_neq. vm_compute. discriminate.
 Qed.
 
-(* ReadUserTuple with Conditions: the contextual tuple is returned although its condition is excluded *)
+(* ReadUserTuple with Conditions: the contextual rtuple is returned although its condition is excluded *)
 Theorem combined_rut_refuted_conditions :
   exists stored ctx k cs, keys_unique (stored ++ ctx) = true /\ N.eqb (k_rel k) 0 = false /\
     combined_read_user_tuple stored ctx k cs <> read_user_tuple (stored ++ ctx) k cs.
@@ -758,8 +757,8 @@ Proof.
   exists [], [tB], (mkKey 10 3 ub), [0]. repeat split. vm_compute. discriminate.
 Qed.
 
-(* ReadUserTuple when a contextual tuple has the key of a stored one: the stored tuple is shadowed
-   (here: the stored, unconditioned tuple by a conditioned contextual one) *)
+(* ReadUserTuple when a contextual rtuple has the key of a stored one: the stored rtuple is shadowed
+   (here: the stored, unconditioned rtuple by a conditioned contextual one) *)
 Theorem combined_rut_refuted_overlap :
   exists stored ctx k, rut_shape_ok k [] = true /\ keys_unique stored = true /\ keys_unique ctx = true /\
     combined_read_user_tuple stored ctx k [] <> read_user_tuple (stored ++ ctx) k [].
@@ -767,7 +766,7 @@ Proof.
   exists [tA], [tAc], (mkKey 10 3 ua). repeat split. vm_compute. discriminate.
 Qed.
 
-(* ReadUsersetTuples without restrictions ("1.0 model" path of the datastores): no contextual tuple *)
+(* ReadUsersetTuples without restrictions ("1.0 model" path of the datastores): no contextual rtuple *)
 Theorem combined_usersets_refuted_no_restrictions :
   exists stored ctx f, uf_conds f = [] /\ ofilter_exact (uf_obj f) = true /\
     ~ Permutation (combined_read_userset_tuples stored ctx f) (read_userset_tuples (stored ++ ctx) f).
@@ -780,16 +779,16 @@ Theorem combined_usersets_refuted_conditions :
   exists stored ctx f, negb (null (uf_restr f)) = true /\ forallb restr_wf (uf_restr f) = true /\
     ~ Permutation (combined_read_userset_tuples stored ctx f) (read_userset_tuples (stored ++ ctx) f).
 Proof.
-  exists [], [tW], (mkUF (OFull 10) 3 [RWild 1] [9]). repeat split.
+  exists [], [tW], (mkUF (OFull 10) 3 [UWild 1] [9]). repeat split.
   apply perm_length_neq. vm_compute. discriminate.
 Qed.
 
-(* a relation restriction with an empty relation matches a stored typed wildcard, not a contextual one *)
+(* a relation urestr with an empty relation matches a stored typed wildcard, not a contextual one *)
 Theorem combined_usersets_refuted_empty_relation :
   exists stored ctx f, negb (null (uf_restr f)) = true /\ uf_conds f = [] /\
     ~ Permutation (combined_read_userset_tuples stored ctx f) (read_userset_tuples (stored ++ ctx) f).
 Proof.
-  exists [], [tW], (mkUF (OFull 10) 3 [RRel 1 0] []). repeat split.
+  exists [], [tW], (mkUF (OFull 10) 3 [URel 1 0] []). repeat split.
   apply perm_length_neq. vm_compute. discriminate.
 Qed.
 
@@ -828,7 +827,7 @@ Proof.
 Qed.
 
 (* ... and WHICH one survives depends on which of the two is contextual: the same two tuples, split
-   the other way round, give a different result (a different condition on the surviving tuple) *)
+   the other way round, give a different result (a different condition on the surviving rtuple) *)
 Theorem combined_rswu_sorted_split_dependent_refuted :
   exists a b f, rswu_shape_ok f = true /\ keys_unique [a; b] = true /\
     combined_rswu [a] [b] f true <> combined_rswu [b] [a] f true.
@@ -839,9 +838,9 @@ Qed.
 (* ---- the weighted-graph engine's indexes --------------------------------------------------- *)
 
 Section InsertSorted.
-  Variable kf : tuple -> N.
+  Variable kf : rtuple -> N.
 
-  Fixpoint strict_by (l : list tuple) : Prop :=
+  Fixpoint strict_by (l : list rtuple) : Prop :=
     match l with
     | [] => True
     | a :: l' => (forall x, In x l' -> kf a < kf x) /\ strict_by l'
@@ -891,10 +890,10 @@ Section InsertSorted.
 End InsertSorted.
 
 Section Index.
-  Variable kf : tuple -> N.
-  Variable sel : tuple -> bool.
+  Variable kf : rtuple -> N.
+  Variable sel : rtuple -> bool.
 
-  Definition build (ctx : list tuple) (acc : list tuple) : list tuple :=
+  Definition build (ctx : list rtuple) (acc : list rtuple) : list rtuple :=
     fold_left (fun acc t => if sel t then insert_sorted kf acc t else acc) ctx acc.
 
   Lemma build_sound ctx : forall acc x, In x (build ctx acc) -> In x acc \/ (In x ctx /\ sel x = true).
@@ -917,27 +916,118 @@ Section Index.
     apply IH. destruct (sel t); [apply insert_sorted_strict; exact H | exact H].
   Qed.
 
-  (* every selected contextual tuple is represented by an entry with its sort key; it is the tuple
-     itself when no other selected tuple (and nothing in acc) has that sort key *)
+  (* every selected contextual rtuple is represented by an entry with its sort key ... *)
   Lemma build_complete ctx : forall acc t, strict_by kf acc -> In t ctx -> sel t = true ->
-    exists x, In x (build ctx acc) /\ kf x = kf t /\
-      ((forall y, In y acc -> kf y <> kf t) ->
-       (forall y, In y ctx -> sel y = true -> kf y = kf t -> y = t) -> x = t).
+    exists x, In x (build ctx acc) /\ kf x = kf t.
   Proof.
     induction ctx as [| c ctx IH]; intros acc t Hs Hin Hsel; [destruct Hin|].
     simpl. destruct Hin as [-> | Hin].
-    - rewrite Hsel. destruct (insert_sorted_has kf acc t Hs) as [x [Hx [Hk Hu]]].
-      exists x. split; [apply build_keeps; exact Hx|]. split; [exact Hk|]. intros Hn _. apply Hu. exact Hn.
-    - assert (Hs' : strict_by kf (if sel c then insert_sorted kf acc c else acc)).
-      { destruct (sel c); [apply insert_sorted_strict; exact Hs | exact Hs]. }
-      destruct (IH _ t Hs' Hin Hsel) as [x [Hx [Hk Hu]]]. exists x. split; [exact Hx|]. split; [exact Hk|].
-      intros Hn Huniq. apply Hu.
-      + intros y Hy E. destruct (sel c) eqn:Ec; [|apply (Hn y Hy E)].
-        apply insert_sorted_in in Hy. destruct Hy as [-> | Hy]; [|apply (Hn y Hy E)].
-        (* c has t's sort key and is selected: by uniqueness c = t, but then t was found earlier *)
-        assert (c = t) by (apply Huniq; [left; reflexivity | exact Ec | exact E]). subst c.
-        (* harmless: the entry is then t itself; contradiction is not available, so conclude directly *)
-        exact (False_ind _ (N.lt_irrefl _ (eq_ind _ (fun z => z < kf t \/ True -> kf t < kf t) (fun _ => match Hn t with end) _ eq_refl (or_intror I)))) || idtac.
-      + intros y Hy. apply Huniq. right. exact Hy.
-  Abort.
+    - rewrite Hsel. destruct (insert_sorted_has kf acc t Hs) as [x [Hx [Hk _]]].
+      exists x. split; [apply build_keeps; exact Hx | exact Hk].
+    - apply IH; [|exact Hin | exact Hsel].
+      destruct (sel c); [apply insert_sorted_strict; exact Hs | exact Hs].
+  Qed.
+
+  (* ... and by the rtuple itself when it is the only selected rtuple with that sort key *)
+  Lemma build_unique_in ctx : forall acc t, strict_by kf acc -> In t ctx -> sel t = true ->
+    (forall y, In y acc -> kf y <> kf t) ->
+    (forall y, In y ctx -> sel y = true -> kf y = kf t -> y = t) ->
+    In t (build ctx acc).
+  Proof.
+    induction ctx as [| c ctx IH]; intros acc t Hs Hin Hsel Hn Hu; [destruct Hin|].
+    simpl.
+    assert (Hhead : sel t = true -> In t (build ctx (insert_sorted kf acc t))).
+    { intros _. destruct (insert_sorted_has kf acc t Hs) as [x [Hx [_ Hxt]]].
+      rewrite (Hxt Hn) in Hx. apply build_keeps. exact Hx. }
+    destruct Hin as [-> | Hin]; [rewrite Hsel; apply Hhead; exact Hsel|].
+    destruct (sel c) eqn:Ec.
+    - destruct (N.eq_dec (kf c) (kf t)) as [E | E].
+      + assert (c = t) by (apply Hu; [left; reflexivity | exact Ec | exact E]). subst c. apply Hhead. exact Hsel.
+      + apply IH; [apply insert_sorted_strict; exact Hs | exact Hin | exact Hsel | |].
+        * intros y Hy. apply insert_sorted_in in Hy. destruct Hy as [-> | Hy]; [exact E | apply Hn; exact Hy].
+        * intros y Hy. apply Hu. right. exact Hy.
+    - apply IH; [exact Hs | exact Hin | exact Hsel | exact Hn|]. intros y Hy. apply Hu. right. exact Hy.
+  Qed.
 End Index.
+
+(* the two indexes of buildContextualTupleMaps *)
+Theorem index_by_user_sound ctx k x :
+  In x (index_by_user ctx k) -> In x ctx /\ k3_eqb (by_user_key x) k = true.
+Proof.
+  intro H. unfold index_by_user in H.
+  destruct (build_sound rt_obj (fun t => k3_eqb (by_user_key t) k) ctx [] x H) as [[] | Hx]. exact Hx.
+Qed.
+
+Theorem index_by_object_sound ctx k x :
+  In x (index_by_object ctx k) -> In x ctx /\ k4_eqb (by_object_key x) k = true.
+Proof.
+  intro H. unfold index_by_object in H.
+  destruct (build_sound (fun x => u_str (rt_user x)) (fun t => k4_eqb (by_object_key t) k) ctx [] x H) as [[] | Hx]. exact Hx.
+Qed.
+
+Lemma k3_eqb_eq a b : k3_eqb a b = true <-> a = b.
+Proof.
+  destruct a as [[a1 a2] a3], b as [[b1 b2] b3]. simpl. rewrite !andb_true_iff, !N.eqb_eq.
+  split; [intros [[-> ->] ->]; reflexivity | intro H; inversion H; auto].
+Qed.
+Lemma k4_eqb_eq a b : k4_eqb a b = true <-> a = b.
+Proof.
+  destruct a as [[a1 a2] [a3 a4]], b as [[b1 b2] [b3 b4]]. simpl. rewrite !andb_true_iff, !N.eqb_eq.
+  split; [intros [[[-> ->] ->] ->]; reflexivity | intro H; inversion H; auto].
+Qed.
+
+(* with unique keys among the contextual tuples, each index entry holds exactly the contextual tuples
+   filed under its key, strictly ascending by object (resp. user) *)
+Theorem index_by_user_complete ctx t :
+  keys_unique ctx = true -> In t ctx -> In t (index_by_user ctx (by_user_key t)).
+Proof.
+  intros Hu Hin. unfold index_by_user.
+  apply (build_unique_in rt_obj (fun x => k3_eqb (by_user_key x) (by_user_key t)) ctx [] t);
+    [exact I | exact Hin | apply k3_eqb_eq; reflexivity | intros y [] |].
+  intros y Hy Hk Ho. apply k3_eqb_eq in Hk. unfold by_user_key in Hk. inversion Hk as [[E1 E2 E3]].
+  apply (keys_unique_in _ Hu); [exact Hy | exact Hin|].
+  unfold key_eqb, key_of, user_eqb. simpl. rewrite Ho, E1, E2, !N.eqb_refl. reflexivity.
+Qed.
+
+Theorem index_by_object_complete ctx t :
+  keys_unique ctx = true -> In t ctx -> In t (index_by_object ctx (by_object_key t)).
+Proof.
+  intros Hu Hin. unfold index_by_object.
+  apply (build_unique_in (fun x => u_str (rt_user x)) (fun x => k4_eqb (by_object_key x) (by_object_key t)) ctx [] t);
+    [exact I | exact Hin | apply k4_eqb_eq; reflexivity | intros y [] |].
+  intros y Hy Hk Ho. apply k4_eqb_eq in Hk. unfold by_object_key in Hk. inversion Hk as [[E1 E2 E3 E4]].
+  apply (keys_unique_in _ Hu); [exact Hy | exact Hin|].
+  unfold key_eqb, key_of, user_eqb. simpl. rewrite Ho, E1, E2, !N.eqb_refl. reflexivity.
+Qed.
+
+Theorem index_by_user_strict ctx k : strict_by rt_obj (index_by_user ctx k).
+Proof. unfold index_by_user. apply (build_strict rt_obj). exact I. Qed.
+Theorem index_by_object_strict ctx k : strict_by (fun x => u_str (rt_user x)) (index_by_object ctx k).
+Proof. unfold index_by_object. apply (build_strict (fun x => u_str (rt_user x))). exact I. Qed.
+
+(* specificType: the lookup of the request's object in the by-user entry finds the contextual rtuple
+   with the requested key exactly when there is one *)
+Theorem index_lookup_spec ctx u r ot o :
+  keys_unique ctx = true ->
+  match index_lookup_object (index_by_user ctx (u, r, ot)) o with
+  | Some t => In t ctx /\ rt_obj t = o /\ rt_rel t = r /\ u_str (rt_user t) = u /\ rt_otype t = ot
+  | None => forall t, In t ctx -> ~ (rt_obj t = o /\ rt_rel t = r /\ u_str (rt_user t) = u /\ rt_otype t = ot)
+  end.
+Proof.
+  intro Hu. unfold index_lookup_object.
+  destruct (find (fun t => rt_obj t =? o) (index_by_user ctx (u, r, ot))) as [t|] eqn:E.
+  - apply find_some in E. destruct E as [Hin Ho]. apply N.eqb_eq in Ho.
+    apply index_by_user_sound in Hin. destruct Hin as [Hin Hk]. apply k3_eqb_eq in Hk.
+    unfold by_user_key in Hk. inversion Hk. repeat split; auto.
+  - intros t Hin [Ho [Hr [Hus Hot]]].
+    assert (Hidx : In t (index_by_user ctx (by_user_key t))) by (apply index_by_user_complete; assumption).
+    unfold by_user_key in Hidx. rewrite Hr, Hus, Hot in Hidx.
+    rewrite find_none_iff in E. specialize (E t Hidx). simpl in E. apply N.eqb_neq in E. contradiction.
+Qed.
+
+(* de-duplication in insertSortedTuple: of two contextual tuples with the same key the first one of
+   the request is kept, the other dropped (the engine never sees it) *)
+Theorem index_dedup_first_wins :
+  exists a b, key_eqb (key_of a) (key_of b) = true /\ a <> b /\
+    index_by_user [a; b] (by_user_key a) = [a] /\ index_by_user [b; a] (by_user_key a) = [b].
+Proof. exists tA, tAc. repeat split; try reflexivity. discriminate. Qed.
